@@ -132,8 +132,14 @@ def gen_mufid(rng, tier):
     case = dict(stream="mufid", kind=kind, shape=shape)
     npos, c = npos_c(case)
     dim = npos * c
-    n = rng.choice([1, 2, 2, 3, 3, 4])
+    n = rng.choice([1, 2, 2, 3, 3, 4, 5])
     nb = rng.choice([1, 2, 3, 4, 5, 6, 7, 8, 9, 10, 12] if rng.random() < 0.5 else [4, 5, 6, 7, 8, 9, 10, 12])
+    # a fifth of the cases: several inputs per input batch AND a smaller last input batch (N = 3 or 5 with 2 per batch,
+    # N = 4 or 5 with 3 per batch), random explanations of a non-additive score (per-sample correlations differ)
+    ragged = rng.random() < 0.2
+    if ragged:
+        per = rng.choice([2, 2, 3])
+        n = rng.choice([3, 5] if per == 2 else [4, 5])
     case["nb"] = nb
     case["grid"] = rng.choice([None, None, 1, 2, 3, 5, 9])
     case["pct"] = rng.choice([0.0, 1.0] if rng.random() < 0.08 else [0.2, 0.4, 0.5, 0.5, 0.7, 0.3, 0.6])
@@ -141,7 +147,7 @@ def gen_mufid(rng, tier):
         dict(fun=rng.choice(sorted(BASE_FUNS)))
     a, b = baseline_ab(case)
     ncls = rng.randint(1, 3)
-    mk = rng.choice(["quad", "quad", "additive", "additive", "const"])
+    mk = "quad" if ragged else rng.choice(["quad", "quad", "additive", "additive", "const"])
     if mk == "quad":
         case["params"] = fam.gen_fquad(rng, ncls, dim)
     elif mk == "additive":
@@ -173,6 +179,8 @@ def gen_mufid(rng, tier):
     bss = [1, 2, 3, max(1, nb - 1), nb, nb + 1, 2 * nb, 2 * nb + 1, n * nb, n * nb + 1, None, None, 64,
            rng.randint(1, n * nb + 2)]
     case["bs"] = rng.choice(bss)
+    if ragged:
+        case["bs"] = per * nb + rng.choice([0, 0, 1]) if per * nb + 1 < (per + 1) * nb else per * nb
     case["eager"] = rng.random() < 0.25
     case["tfseed"] = rng.randint(0, 2 ** 31 - 1)
     return case
@@ -224,6 +232,7 @@ def gen_stab(rng, tier):
         case["base_es"] = [[rng.randint(-8, 8) / 4 for _ in range(dim)] for _ in range(n)]
     case["bs"] = rng.choice([None, 1, 2, 64])
     case["tfseed"] = rng.randint(0, 2 ** 31 - 1)
+    case["warm"] = rng.choice([k for k in ("grad", "gradinput", "absgrad", "const") if k != case["explainer"]]) if rng.random() < 0.5 else None
     return case
 
 
@@ -489,6 +498,10 @@ def run_stab(case):
     metric = AverageStability(model, xs, ts, batch_size=case["bs"], radius=case["radius"],
                               distance=make_distance(case["dist"]), nb_samples=nb)
     expl = RecExplainer(case)
+    if case.get("warm"):
+        # history: the usual loop `for explainer in explainers: metric(explainer)` — ANOTHER explainer was evaluated on
+        # this metric object just before
+        metric(RecExplainer(dict(case, explainer=case["warm"])))
     if case["base"] is None:
         value = metric(expl)
         base = None
